@@ -20,7 +20,15 @@ def run(ctx):
     impl = ctx.build('asan')
     cases = []
     for k in range(ndiscs):
-        d = discs.gen_disc(r)
+        # the first discs of every run: Opus discs with a letter missing before a present one, and with the volumes lying on the disc in
+        # non-alphabetical order (each volume must still be read through its own catalogue, 2i/2i+1, from its own start track)
+        forced = {0: dict(opus_nvol=3, opus_style='gap-after-a', opus_reorder=False), 1: dict(opus_nvol=2, opus_style='gap', opus_reorder=True),
+                  2: dict(opus_nvol=3, opus_style='contiguous', opus_reorder=True)}.get(k)
+        d = discs.gen_disc(r, variant='opus', max_files=4, **forced) if forced else discs.gen_disc(r)
+        if forced:
+            for (st_, cat_) in d.vols.values():
+                if not cat_.files and cat_.total > 20:
+                    cat_.files = [discs.AbsFile(0x24, b'ONLY%d' % st_, False, 0, 0, 3, r.bytes(r.range(1, 700)))]
         img = d.encode(discs.filler(r))
         name = 'd' + d.extension()
         files = d.all_files()
